@@ -170,67 +170,8 @@ impl AdjacencyList {
 
 // ---- size: `self.arcs.iter().map(BTreeSet::len).sum()` ----
 
-/// s lists the sizes of the rows
-spec fn row_sizes(g: AdjacencyList, s: Seq<usize>) -> bool {
-    s.len() == g.arcs@.len() && forall|k: int| 0 <= k < s.len() ==> #[trigger] s[k] == g.arcs@[k]@.len()
-}
 
-/// the sum of the first k row sizes is `rows_sum` (list_ops) and at most k * (n - 1): a row of a well-formed list avoids its own vertex
-proof fn lemma_row_sizes_sum(g: AdjacencyList, s: Seq<usize>, k: int)
-    requires g.wf(), row_sizes(g, s), 0 <= k <= s.len(), g.ord() <= usize::MAX,
-    ensures seq_sum(s.take(k)) == rows_sum(g, k), 0 <= rows_sum(g, k) <= k * (g.ord() - 1),
-    decreases k
-{
-    if k > 0 {
-        lemma_row_sizes_sum(g, s, k - 1);
-        assert(s.take(k).drop_last() =~= s.take(k - 1));
-        assert(s.take(k).last() == s[k - 1]);
-        let n = g.arcs@.len();
-        let row = g.arcs@[k - 1]@;
-        lemma_below(n);
-        let full = below(n).remove((k - 1) as usize);
-        assert(row.subset_of(full));
-        lemma_len_subset(row, full);
-        assert(k * (g.ord() - 1) == (k - 1) * (g.ord() - 1) + (g.ord() - 1)) by (nonlinear_arith);
-    } else {
-        assert(0 * (g.ord() - 1) == 0) by (nonlinear_arith);
-    }
-}
-
-/// the whole sum: `rows_sum`, inside usize for at most 2^32 vertices
-proof fn lemma_row_sizes(g: AdjacencyList, s: Seq<usize>)
-    requires g.wf(), row_sizes(g, s), g.ord() <= 0x1_0000_0000,
-    ensures seq_sum(s) == rows_sum(g, g.ord()), seq_sum(s) <= usize::MAX,
-{
-    let n = g.ord();
-    lemma_row_sizes_sum(g, s, n);
-    assert(s.take(n) =~= s);
-    assert(n * (n - 1) <= usize::MAX) by (nonlinear_arith) requires 1 <= n <= 0x1_0000_0000;
-}
-
-impl AdjacencyList {
-    // The PROVED version of the contract that units/inc/list_ops.inc.rs assumes for `size` (same requires, same ensures over the
-    // same spec fn `rows_sum`); extracted under another name only because that assumed `size` is part of the imported fragment.
-    // The last two clauses restate list_ops' `lemma_arcs_upto`: the count is the cardinality of the arc relation `has`.
-    /*@fn impl=AdjacencyList trait=Size name=size rename=size_sum wrap=sum props=C02,C13
-    requires
-        self.wf(),
-        self.ord() <= 0x1_0000_0000,
-    ensures
-        r == rows_sum(*self, self.ord()),
-        r == arcs_upto(*self, self.ord()).len(),
-        forall|p: (int, int)| #[trigger] arcs_upto(*self, self.ord()).contains(p) == self.has(p.0, p.1),
-    @fn_start
-        broadcast use vstd::std_specs::iter::group_iter_axioms;
-        proof {
-            lemma_arcs_upto(*self, self.ord());
-            // the Map iterator is consumed in the tail expression: state the meaning of its item sequence for every candidate
-            assert forall|s: Seq<usize>| row_sizes(*self, s) implies #[trigger] seq_sum(s) == rows_sum(*self, self.ord()) && seq_sum(s) <= usize::MAX by {
-                lemma_row_sizes(*self, s);
-            }
-        }
-    @*/
-}
+// (size: proved in units/inc/list_ops.inc.rs, which this unit imports)
 
 // ---- is_simple: `self.arcs.iter().enumerate().all(|(u, set)| !set.contains(&u))` ----
 
